@@ -54,13 +54,14 @@ def run_option(cfg, in_farm=True):
         else:
             base[k] = v
     base.pop("_dims", None)
+    model_name = base.pop("_model", None)
     if ins and base.get("max_iteration", 0) is None:
         # an uncapped importance-sampler run terminates only through its stopping criteria, i.e. only if the flows are good enough to converge: with the tiny flows
         # of the other cases (2 blocks x 4 neurons) a MAF run oscillates for hundreds of iterations, which says nothing about the option under test.  Uncapped runs
         # therefore get a small but adequate network, and the 60-iteration budget then is a statement about bounded progress.
         base["flow_config"] = {**base["flow_config"], "n_blocks": 4, "n_neurons": 16, "n_layers": 2}
         base["training_config"] = {**base["training_config"], "max_epochs": 100, "patience": 10}
-    model = zoo.make({2: "G2u", 3: "G3u"}[cfg.get("dims", 2)])
+    model = zoo.make(model_name or {2: "G2u", 3: "G3u"}[cfg.get("dims", 2)])
     counters = dict(latent_batches=0, ins_draw_batches=0, iterations=0, populations=0, overrun=None)
     res = dict(name=cfg["name"], sampler=cfg["sampler"])
     CUR["counters"], CUR["model"] = counters, model
